@@ -39,9 +39,9 @@ FILE_CHECKS = {
     "dali/gear/incandescent.py": ["C02", "C03", "C06"],
     "dali/gear/sequences.py": ["C14"],
     "dali/device/general.py": ["C02", "C03", "C12", "C01", "C13"],
-    "dali/device/pushbutton.py": ["C02", "C12", "C03"],
-    "dali/device/occupancy.py": ["C02", "C12", "C03"],
-    "dali/device/light.py": ["C02", "C12", "C03"],
+    "dali/device/pushbutton.py": ["C02", "C12", "C03", "C13"],
+    "dali/device/occupancy.py": ["C02", "C12", "C03", "C13"],
+    "dali/device/light.py": ["C02", "C12", "C03", "C13"],
     "dali/device/helpers.py": ["C12", "C13"],
     "dali/device/sequences.py": ["C13"],
     "dali/sequences.py": ["C07", "C08"],
